@@ -30,21 +30,22 @@ def handle (line : String) : String :=
       let inDom := t.fits a ∧ t.fits b ∧ t.fits (a.natAbs : Int) ∧ t.fits (b.natAbs : Int) ∧ ¬ (a = 0 ∧ b = 0) ∧ t.fits (specLcm a b)
       answer (showExcept toString (lcmT t a b)) (if inDom then toString (specLcm a b) else "any")
     | _ => badLine line
-  | ("egcd", none), rest =>
+  | ("egcd", ty), rest =>
     match parseInts? rest with
     | some [a, b, c] =>
-      -- the harness instantiates `egcd` / `crt` at i64; the property's box is |a|,|b|,|c| ≤ 2^20
-      let r := egcdT IntTy.i64 a b c
-      let inBox := a.natAbs ≤ 2 ^ 20 ∧ b.natAbs ≤ 2 ^ 20 ∧ c.natAbs ≤ 2 ^ 20
-      let s := if (a = 0 ∧ b = 0) ∨ ¬ inBox then "any" else if specSolvable a b c then "solution" else "none"
+      -- `egcd:ty a b c` runs the checked model of `egcd::<ty>`; the untyped form is the i64 instantiation.  The domain is
+      -- `domEgcd` (signed type, |operands| ≤ MAX, the coefficient bound fits): `egcd_dom_answer`; it contains the 2^20 box.
+      let t := ty.getD IntTy.i64
+      let r := egcdT t a b c
+      let s := if ¬ domEgcd t a b c then "any" else if specSolvable a b c then "solution" else "none"
       answer3 (showExcept showOptPair r) (viewSolve a b c r) s
     | _ => badLine line
-  | ("crt", none), rest =>
+  | ("crt", ty), rest =>
     match parseInts? rest with
     | some [a1, m1, a2, m2] =>
-      let inDom := 1 ≤ m1 ∧ m1 ≤ 2 ^ 20 ∧ 1 ≤ m2 ∧ m2 ≤ 2 ^ 20 ∧ 0 ≤ a1 ∧ a1 < m1 ∧ 0 ≤ a2 ∧ a2 < m2
-      let r := crtT IntTy.i64 a1 m1 a2 m2
-      let s := if ¬ inDom then "any" else if specCrtSolvable a1 m1 a2 m2 then "solution" else "none"
+      let t := ty.getD IntTy.i64
+      let r := crtT t a1 m1 a2 m2
+      let s := if ¬ domCrt t a1 m1 a2 m2 then "any" else if specCrtSolvable a1 m1 a2 m2 then "solution" else "none"
       answer3 (showExcept showOptInt r) (viewCrt a1 m1 a2 m2 r) s
     | _ => badLine line
   | _, _ => badLine line
